@@ -163,6 +163,7 @@ def check_property(pid, tier, jobs, seed=0, meta=None, verbose=False, budget_s=N
     violations, known_hits, inconclusive = [], [], []
     tot = dict(paths=0, forks=0, checks=0, solver_s=0.0, obligations=0, discharged=0, sat=0, unknown=0, xval_ok=0, xval_inexact=0, xval_skipped=0,
                exc_paths={}, unconfirmed=0)
+    pending_unconfirmed = []
     xc = dict(checked=0, agree=0, inconclusive=0, seconds=0.0)
     xc_bad = []
     samples = []
@@ -205,8 +206,7 @@ def check_property(pid, tier, jobs, seed=0, meta=None, verbose=False, budget_s=N
             if e not in ("job timed out with unexplored paths",) and not e.startswith('unknown at'):
                 inconclusive.append("%s: %s" % (j.name, e))
         if r.unconfirmed:
-            inconclusive.append("%s: %d sat obligations whose witness did not reproduce on the real code (site %s)" % (
-                j.name, len(r.unconfirmed), r.unconfirmed[0]['site']))
+            pending_unconfirmed.append((j, r))
         if r.complete and r.paths > 0 and r.obligations == 0 and not r.unsupported:
             unreached.append(j.name + (" (every path ended in an exception: %s)" % r.exc_msgs[:1] if r.exc_paths else ""))
         for v in r.violations:
@@ -217,6 +217,21 @@ def check_property(pid, tier, jobs, seed=0, meta=None, verbose=False, budget_s=N
                 violations.append(v)
     for u in unreached:
         inconclusive.append("%s: no obligation reached (vacuous)" % u)
+    # sat obligations whose witness did not replay (e.g. exact ties between irrational frequencies, which float64 cannot hit): if the
+    # witness falls under a known finding that was *confirmed by a replayed witness of the same job in this run*, it is attributed to
+    # that finding; every other one makes the check inconclusive
+    confirmed = {(k.get('id', k.get('what')), v['job']) for k, v in known_hits}
+    attributed = 0
+    for j, r in pending_unconfirmed:
+        rest = []
+        for u in r.unconfirmed:
+            k = match_known(dict(prop=pid, job=u['job'], site=u['site'], inputs=u['inputs']), known) if u.get('inputs') is not None else None
+            if k is not None and (k.get('id', k.get('what')), u['job']) in confirmed:
+                attributed += 1
+            else:
+                rest.append(u)
+        if rest:
+            inconclusive.append("%s: %d sat obligations whose witness did not reproduce on the real code (site %s)" % (j.name, len(rest), rest[0]['site']))
 
     # report
     seen = set()
@@ -257,6 +272,7 @@ def check_property(pid, tier, jobs, seed=0, meta=None, verbose=False, budget_s=N
             xval_inexact=tot['xval_inexact'],
             xval_skipped=tot['xval_skipped'],
             unconfirmed_witnesses=tot['unconfirmed'],
+            unconfirmed_attributed_to_confirmed_known_findings=attributed,
             second_opinion=dict(enabled=H.CROSSCHECK, solvers=[n for n, _ in H.Runner.XC_SOLVERS], queries_rechecked=xc['checked'], agree_unsat=xc['agree'],
                                 no_verdict=xc['inconclusive'], disagreements=xc_bad, seconds=round(xc['seconds'], 1),
                                 rule="the first non-trivially discharged obligation of every job slice and every 250th after it is exported as SMT-LIB2 "
